@@ -782,7 +782,9 @@ class E2Meta(ScriptEngine):
             nm = name()
             binds.append(f"{nm} = {text}")
             how = r.random()
-            if kind == "int" and how < 0.5:
+            if kind == "pin" and live and "pin_name_mutation" in avoid:
+                pass  # a device keeps using the *name* of its pin: re-assigning it later moves the device (known finding)
+            elif kind in ("int", "pin") and how < 0.5:
                 dead.append(r.choice([f"{nm} = {nm} + 1", f"{nm} += 3", f"{nm} = 0"]))
             elif kind == "list" and how < 0.6 and "dead_list_mutation" not in avoid:
                 dead.append(r.choice([f"{nm}.append(1)", f"{nm}.remove({value[0]})" if value else f"{nm}.append(0)"]))
@@ -800,18 +802,21 @@ class E2Meta(ScriptEngine):
         def both(fmt: str, *pairs):
             p_lines.append((fmt.format(*[a for a, _b in pairs]), fmt.format(*[b for _a, b in pairs])))
 
-        use_lcd = r.random() < 0.5
-        use_bz = r.random() < 0.4
-        use_us = r.random() < 0.4
-        both("led = Led({})", lit(r.choice([3, 5, 6, 9])))
+        # "live" mode: the names are really re-assigned on paths the world takes (taken branch, loop with trips);
+        # then only board(P') vs host(P') is meaningful
+        live = r.random() < 0.35
+        use_lcd = (not live) and r.random() < 0.5
+        use_bz = (not live) and r.random() < 0.4
+        use_us = (not live) and r.random() < 0.4
+        both("led = Led({})", lit(r.choice([3, 5, 6, 9]), "pin"))
         if r.random() < 0.5:
-            both("sv = Servo({})", lit(10))
+            both("sv = Servo({})", lit(10, "pin"))
         else:
             p_lines.append(("sv = Servo(10, min_angle=0, max_angle=170)", "sv = Servo(10, min_angle=0, max_angle=170)"))
         if use_lcd:
             p_lines.append(("lcd = LCD(rs=12, en=11, d4=7, d5=4, d6=8, d7=2, cols=16, rows=2)",) * 2)
         if use_bz:
-            both("bz = Buzzer({})", lit(13))
+            both("bz = Buzzer({})", lit(13, "pin"))
         if use_us:
             both("us = Ultrasonic(22, 23, sensor={})", lit(r.choice(["HC-SR04", "hc-sr04", "hc_sr04"]), "str"))
         both("g = {}", lit(r.randint(0, 50)))
@@ -899,7 +904,13 @@ class E2Meta(ScriptEngine):
             sel = [l for l in lines if r.random() < 0.7]
             if not sel:
                 return out
-            if r.random() < 0.5:
+            if live:
+                # only plain int re-assignments are used live (`x = x + 1`, `x += 3`): lists/strings feed fold sites
+                sel = [l for l in sel if " + 1" in l or "+= 3" in l]
+                if not sel:
+                    return out
+                out.append(r.choice(["if pot.read() >= 0:", "for z in range(2):", "if True:"]))
+            elif r.random() < 0.5:
                 out.append("if pot.read() > 5000:")
             else:
                 out.append("for z in range(0):")
@@ -923,6 +934,9 @@ class E2Meta(ScriptEngine):
         script_q = "\n".join(q_text) + "\n"
         world = random_world(rng, script_q, r.choice([0, 1, 2, 3]))
         world["pulse"] = {"23": [r.choice([0, 800, 5000]) for _ in range(12)]}
+        if live:
+            # pins and counts must stay legal after the live increments: only the P' vs host comparison applies
+            return {"script": script_q, "literal_script": None, "worlds": [world], "has_host": True, "live": True}
         return {"script": script_q, "literal_script": script_p, "worlds": [world], "has_host": not (use_bz or use_us or use_lcd)}
 
     def execute(self, case: dict) -> Outcome:
@@ -935,6 +949,8 @@ class E2Meta(ScriptEngine):
             out = super().execute(case)
             if out.status != "ok":
                 return out
+        if case.get("literal_script") is None:
+            return out if out is not None else Outcome("discard", message="nothing to compare")
         logs = []
         for text in (case["literal_script"], case["script"]):
             try:
@@ -976,8 +992,9 @@ class E2Meta(ScriptEngine):
         return Outcome("ok", digest=sha(case["script"])[:16], nontrivial=nontrivial(t_var), sim_ms=t_var.end_ms,
                        probes={"host_compared": int(bool(case.get("has_host")))})
 
-    def shrink_candidates(self, case: dict):
-        return []
-
     def sample_view(self, case: dict):
         return {"literal": case["literal_script"], "named": case["script"]}
+
+    def shrink_candidates(self, case: dict):
+        if case.get("literal_script") is None:
+            yield from ScriptEngine.shrink_candidates(self, case)
